@@ -1,6 +1,7 @@
 package gaussian
 
 import (
+	"errors"
 	"fmt"
 	"math"
 	"strconv"
@@ -229,6 +230,10 @@ func NewCalculator(
 	volume float64,
 	repeatWindow time.Duration,
 ) (*Calculator, error) {
+	if volume < 0 {
+		return nil, fmt.Errorf("volume %v must not be negative", volume)
+	}
+
 	multiplier := volume * float64(frequency)
 	gauss, err := gaussian.NewDistribution(float64(peak), float64(stddev))
 	if err != nil {
@@ -239,13 +244,25 @@ func NewCalculator(
 	if len(weights) > 0 {
 		totalWeight := 0.0
 		for _, weight := range weights {
+			if weight < 0 {
+				return nil, fmt.Errorf("weight %v must not be negative", weight)
+			}
 			totalWeight += weight
 		}
 		averageWeight = totalWeight / float64(len(weights))
+		if averageWeight <= 0 {
+			return nil, errors.New("at least one weight must be positive")
+		}
 	}
 
 	// account for large standard deviations or peaks beyond the window
 	coveredRegion := gauss.CDF(float64(repeatWindow-frequency)) - gauss.CDF(0)
+	if coveredRegion <= 0 {
+		return nil, fmt.Errorf(
+			"the distribution does not cover the repeat window %s (it must be longer than the iteration frequency %s)",
+			repeatWindow, frequency,
+		)
+	}
 	multiplier /= coveredRegion
 
 	return &Calculator{
